@@ -280,7 +280,9 @@ def step (d : DState) (t : List String) : DState × List String :=
   | "slot" :: k :: m :: acts =>
     match k.toNat?, parseActions acts with
     | some k, some a =>
-      if 1 ≤ k ∧ k < 8 ∧ (m == "M" ∨ m == "U") then
+      -- "U@h": a manual thread launched on the (joined, not re-initialised) handle of slot h; the model treats every
+      -- launch/join cycle of a handle as a slot of its own
+      if 1 ≤ k ∧ k < 8 ∧ (m == "M" ∨ m == "U" ∨ m.startsWith "U@") then
         ({ d with slots := (k, m == "M", a) :: d.slots, voids := (k, voidsOf acts) :: d.voids }, []) else (d, ["bad-op"])
     | _, _ => (d, ["bad-op"])
   | "main" :: acts =>
